@@ -389,3 +389,73 @@ def c03_single(m, run):
     run.extra['ot4_paths'] = paths
     finish(t1, 'geomdl/helpers.py')
     finish(t2, 'geomdl/helpers.py')
+
+
+# ====================================================================================== C06: A5.8 on a working copy
+def c06(m, run):
+    """helpers.knot_removal ports the in-place algorithm A5.8 onto a deep copy of its input.  Every removal step and the final
+    shift are defined on the control points produced by the previous steps, so an element of the *input* array may be read only
+    while the corresponding element of the working copy is still unchanged (SS1, exact per structural tuple: the interpreter
+    compares cell identities at the moment of the read).  SK3: the result has n - num cells, each a defined point of the input
+    shape.  The removability tests (distance <= tol) are forked both ways."""
+    P = 4 if run.tier == 'thorough' else 3
+    for lab in ('rows of points (curve / surface)', 'slabs of points (volume)'):
+        ts = Tally(run, 'SS1.reads-follow-the-working-copy', 'helpers.knot_removal :: %s' % lab,
+                   'degree 1..%d x clamped order types with n = p+2..p+4 x every interior knot x removal count 1..multiplicity; removability tests forked' % P)
+        tc = Tally(run, 'SK3.cells-defined', 'helpers.knot_removal :: %s' % lab, ts.describe)
+        tv = Tally(run, 'RM1.removability-test-compares-two-points', 'helpers.knot_removal :: %s' % lab, ts.describe)
+        for p in range(1, P + 1):
+            for n in range(p + 2, p + 5):
+                for ranks in knot_order_types(p, n, True):
+                    for rk in sorted(set(ranks))[1:-1]:
+                        s = ranks.count(rk)
+                        r = max(i for i, x in enumerate(ranks) if x == rk)
+                        for num in range(1, s + 1):
+                            def call(prefix, p=p, n=n, r=r, s=s, num=num, lab=lab):
+                                vac = []
+                                ab = dict(STD_ABSTRACTED)
+                                ab[('linalg', 'point_distance')] = Py(lambda sk_, node, a, b, vac=vac: (vac.append(node) if a is b else None) or DEF(), 'point_distance')
+                                sk = SK(m, ab)
+                                sk.decisions = list(prefix)
+                                rows = pts(n, 3) if lab.startswith('rows') else [pts(2, 3) for _ in range(n)]
+                                res = {}
+                                try:
+                                    out = sk.call(m.func('helpers.knot_removal'), [p, floats(n + p + 1), rows, DEF()], {'num': num, 's': s, 'span': r})
+                                    if sk.stale:
+                                        node, idx = sk.stale[0]
+                                        res['SS1'] = ('SS1', 'input element %d is read at line %d `%s` after the working copy changed that element: the updated point is ignored'
+                                                      % (idx, node.lineno, __import__('ast').unparse(node)[:50]))
+                                    if vac:
+                                        res['RM1'] = ('RM1', 'the removability test at line %d measures the distance of a point to itself: every knot is declared removable' % vac[0].lineno)
+                                    if len(out) != n - num:
+                                        res['SK3'] = ('SK3', 'result has %d cells, expected %d' % (len(out), n - num))
+                                    else:
+                                        for i, c in enumerate(out):
+                                            ok = shape_ok(c, 3) if lab.startswith('rows') else (isinstance(c, list) and len(c) == 2 and all(shape_ok(x, 3) for x in c))
+                                            if not ok:
+                                                res['SK3'] = ('SK3', 'output cell %d is not a defined point of the input shape' % i)
+                                                break
+                                except Violation as v:
+                                    res['SK3'] = (v.rule, '%s %s' % (v.msg, v.where()))
+                                except Unsupported as ex:
+                                    res['SK3'] = ('UNSUPPORTED', str(ex))
+                                call.res = res
+                                first = res.get('SS1') or res.get('RM1') or res.get('SK3')
+                                return first, sk.trace
+                            agg = {}
+
+                            def call2(prefix, call=call, agg=agg):
+                                first, trace = call(prefix)
+                                for k, v in call.res.items():
+                                    agg.setdefault(k, v)
+                                return first, trace
+                            explore(call2, 64)
+                            ts.add((p, tuple(ranks), r, s, num), agg.get('SS1'))
+                            tc.add((p, tuple(ranks), r, s, num), agg.get('SK3'))
+                            tv.add((p, tuple(ranks), r, s, num), agg.get('RM1'))
+        finish(ts, 'geomdl/helpers.py in helpers.knot_removal')
+        finish(tc, 'geomdl/helpers.py in helpers.knot_removal')
+        # reported, not an obligation: a vacuous test only concerns knots that are NOT removable, which C06 does not quantify over
+        if tv.bad:
+            (rule, msg), cases = sorted(tv.bad.items(), key=lambda kv: -len(kv[1]))[0]
+            run.note('RM1.removability-test-compares-two-points', tv.key, '%s [%d of %d tuples]' % (msg, len(cases), tv.n))
